@@ -141,6 +141,11 @@ func checkC07(c *HandshakeCase) error {
 			case c.Cuts[i] == -2: // the master rejects the checksum announcement
 				at.plan = &fakemaster.ConnPlan{QueryErr: fakemaster.ErrPacket(1227, "42000", "Access denied")}
 				connectFails = true
+			case c.Cuts[i] == -3: // the session is set up, then the write of the dump command fails on the replica's side
+				disarm := failDumpWrite()
+				defer disarm()
+				at.afterReturn = func(*attemptState) { disarm() }
+				connectFails = true
 			default:
 				at.mutate = cutAfterCommits(l, c.Cuts[i])
 			}
@@ -276,7 +281,7 @@ func TestC07(t *testing.T) {
 		c.Deadlines = rapid.IntRange(0, 15).Draw(rt, "deadline_mask")
 		na := rapid.IntRange(0, 3).Draw(rt, "failed_attempts")
 		for i := 0; i < na; i++ {
-			c.Cuts = append(c.Cuts, rapid.IntRange(-2, 3).Draw(rt, "cut"))
+			c.Cuts = append(c.Cuts, rapid.IntRange(-3, 3).Draw(rt, "cut"))
 		}
 		if na > 0 && rapid.IntRange(0, 2).Draw(rt, "rewinds") == 0 {
 			c.Rewind = []int{-1}
